@@ -250,6 +250,7 @@ type Expectation struct {
 	Jobs     []Job
 	ExitNZ   bool
 	Unsure   string // non-empty: the documentation does not pin this shape; not judged
+	DirDst   bool   // the output argument denotes a directory
 }
 
 // resolve follows symlinks inside the tree model; returns the entry that holds the data.
@@ -377,6 +378,7 @@ func (iv *Inv) Expect(t *Tree) *Expectation {
 			dirDst = true
 		}
 	}
+	ex.DirDst = dirDst
 	if iv.Output == "" && !iv.Bundle && len(iv.Inputs) > 1 {
 		ex.Rejected, ex.Reason, ex.ExitNZ = true, "several inputs to stdout need --bundle", true
 		return ex
